@@ -170,7 +170,7 @@ class Function:
         if depth > 40:
             return "..."
         s = lambda i: self.show(i, depth + 1)
-        if n.get("mac") == "errno" and k in ("paren", "un", "cast", "call"):
+        if (n.get("imac") or n.get("mac")) == "errno" and k in ("paren", "un", "cast", "call"):
             return "errno"
         if k in ("paren", "opaque"):
             return s(n["sub"])
